@@ -12,6 +12,13 @@
 //   E<i>:<t>    v[i].emplace(t)
 //   P<i>:<t>    v[i].value().set(t)                          write through value() (only when engaged)
 //   X<i>        v[i].~OpResult<L>()
+// the same with the payload's constructor THROWING (the payload is L behind a gate that throws once when armed, before L is constructed,
+// so a failed construction leaves no trace in the ledger); the driver emits them only where a payload constructor really runs:
+//   F<i>:<j>    move construction from an engaged v[j], T(T&&) throws       -> no object at i, v[j] unchanged
+//   G<i>:<j>    copy construction from an engaged v[j], T(const T&) throws  -> no object at i, v[j] unchanged
+//   f<i>:<j> / g<i>:<j>   move / copy assignment of an engaged v[j] to a DISENGAGED v[i], constructor throws -> both unchanged
+//   e<i>:<t>    v[i].emplace(t), T(int) throws                              -> old value destroyed, v[i] disengaged
+// a token whose operation did not throw prints "BAD".
 // The driver (props/C40.py) only emits sequences that are valid C++ (construct only dead variables, use only
 // live ones); an invalid token prints "BAD".
 // stdout: one line per case:
@@ -34,9 +41,36 @@
 
 static const int NV = 4;
 
+struct Boom {};
+static bool g_armed = false;
+struct Gate {
+  Gate() {
+    if (g_armed) {
+      g_armed = false;
+      throw Boom();
+    }
+  }
+  Gate(const Gate&) = default;
+  Gate& operator=(const Gate&) = default;
+};
+// the payload: life::L behind the gate (the gate is constructed first, so a throw happens before L exists)
+template <int Dom>
+struct TL {
+  using In = life::L<alignof(int), Dom>;
+  Gate g;
+  In in;
+  explicit TL(int t = 0) : g(), in(t) {}
+  TL(const TL& o) : g(), in(o.in) {}
+  TL(TL&& o) : g(), in(std::move(o.in)) {}
+  TL& operator=(const TL& o) { in = o.in; return *this; }
+  TL& operator=(TL&& o) { in = std::move(o.in); return *this; }
+  int get() const { return in.get(); }
+  void set(int t) { in.set(t); }
+};
+
 template <typename Opt, int Dom>
 struct Driver {
-  using T = life::L<alignof(int), Dom>;
+  using T = TL<Dom>;
   using Led = life::Ledger<Dom>;
   alignas(Opt) unsigned char store[NV][sizeof(Opt)];
   bool inScope[NV];
@@ -83,14 +117,42 @@ struct Driver {
       case 'E': if (!inScope[i]) return false; v(i).emplace(a); return true;
       case 'P': if (!inScope[i] || !engaged(v(i))) return false; v(i).value().set(a); return true;
       case 'X': if (!inScope[i]) return false; v(i).~Opt(); inScope[i] = false; return true;
+      case 'F': case 'G': {
+        if (inScope[i] || a < 0 || a >= NV || !inScope[a] || !engaged(v(a))) return false;
+        bool threw = false;
+        g_armed = true;
+        try {
+          if (op == 'F') new (store[i]) Opt(std::move(v(a))); else new (store[i]) Opt(static_cast<const Opt&>(v(a)));
+        } catch (const Boom&) { threw = true; }
+        g_armed = false;
+        return threw;
+      }
+      case 'f': case 'g': {
+        if (!inScope[i] || engaged(v(i)) || a < 0 || a >= NV || a == i || !inScope[a] || !engaged(v(a))) return false;
+        bool threw = false;
+        g_armed = true;
+        try {
+          if (op == 'f') v(i) = std::move(v(a)); else v(i) = static_cast<const Opt&>(v(a));
+        } catch (const Boom&) { threw = true; }
+        g_armed = false;
+        return threw;
+      }
+      case 'e': {
+        if (!inScope[i]) return false;
+        bool threw = false;
+        g_armed = true;
+        try { v(i).emplace(a); } catch (const Boom&) { threw = true; }
+        g_armed = false;
+        return threw;
+      }
       default: return false;
     }
   }
 };
 
 int main() {
-  static Driver<dispenso::detail::OpResult<life::L<alignof(int), 0>>, 0> real;
-  static Driver<std::optional<life::L<alignof(int), 1>>, 1> ref;
+  static Driver<dispenso::detail::OpResult<TL<0>>, 0> real;
+  static Driver<std::optional<TL<1>>, 1> ref;
   std::string line;
   while (std::getline(std::cin, line)) {
     if (line.empty()) continue;
